@@ -28,6 +28,14 @@ CLAIMED = {
             "executed on ASTNodes, RuleASTNodes and schema.Constraints and all 13 methods are compared with the exported reference state.",
             "Data-race freedom is observed with the Go race detector on harness-produced goroutine mixes, not proved; Constraints.MarshalJSON is "
             "compared on entry count and key order only (it prints integer keys unquoted).", "3/C19"),
+    "C10": ("TLA+ exact-decimal requirement (Num) vs implementation-shaped scanner/normaliser/Cmp (NumScan) checked by TLC on every numeral "
+            "and all short pairs; TLC-computed normal forms replayed through the Number hook; implementation-sorted chain with TLC-validated links; "
+            "TLC trace validation of random long numerals and API probes",
+            "TLC checks value, fractional length and canonical form of the implementation-shaped model on every RFC numeral up to 5/7 characters and "
+            "Cmp on all pairs up to 3/4 characters; the real Number is compared with TLC's normal form for every numeral, every adjacent link of the "
+            "implementation-sorted chain is validated by TLC and every pair is checked against chain rank, so all pairs are decided.",
+            "Number reached through an overlay-injected re-export package; integer classification of '1.0'-like literals unspecified; one recorded "
+            "finding (0e1 rejected) is attributed only when the pinned-tree model predicts it.", "3/C10"),
 }
 
 PENDING_REASON = "check under construction in this session - not claimed yet (no technique switch intended; see DESIGN.md section 3)"
